@@ -15,13 +15,14 @@ def ParentsOk : List Path → List Entry → Prop
 
 /-- Well-formed tree: a directory at the top, valid distinct sibling names, leaves are
 regular files / symlinks / fifos, permission bits fit 07777, symlinks have mode 0777
-(Linux `lstat`), names of one inode agree on everything, and there are at most
+(Linux `lstat`) and a non-empty target, names of one inode agree on everything, and there are at most
 `nlink` of them (`nlink` fits `unsigned int`). -/
 structure TreeOk (t : Node) : Prop where
   isDir : ∃ m cs, t = .dir m cs
   names : t.namesOk = true
   leaves : ∀ e ∈ capture t, e.ftype ≠ .dir →
-    (e.ftype = .reg ∨ e.ftype = .lnk ∨ e.ftype = .fifo) ∧ (e.ftype = .lnk → e.mode = 0o777)
+    (e.ftype = .reg ∨ e.ftype = .lnk ∨ e.ftype = .fifo) ∧
+      (e.ftype = .lnk → e.mode = 0o777 ∧ kindOf e ≠ .lnk [])
   modes : ∀ e ∈ capture t, e.mode < 4096
   links : ∀ a ∈ capture t, ∀ b ∈ capture t, a.ftype ≠ .dir → b.ftype ≠ .dir → a.ino = b.ino →
     a.ftype = b.ftype ∧ a.mode = b.mode ∧ a.mtime = b.mtime ∧ a.payload = b.payload ∧ a.nlink = b.nlink
